@@ -22,7 +22,7 @@ from harness.par import pmap
 
 LIMIT = 100
 FILES = {1: "a.md", 2: "b.txt", 3: "big.md", 4: "eq.md", 5: "ign.md", 6: "node_modules/x.md", 7: "sub/c.md", 8: "sub/deep/d.md",
-         9: "drafts/e.md", 13: "sub/f.txt", 14: "notes.md/raw.dat", 15: "notes.md/in.md"}
+         9: "drafts/e.md", 13: "sub/f.txt", 14: "notes.md/raw.dat", 15: "notes.md/in.md", 17: "other/sub/c2.md", 18: "other/keep.md"}
 IMPL = dict(GlobFilters=True, WalkSkipsLinks=True, ForceAppliesIgnore=False)     # FALSE = behaviour of an open finding
 
 
@@ -43,6 +43,7 @@ def make_tree(root, toolign, above=False):
     if toolign:
         # the ignore file applies from the directory that holds it downwards: in the working directory or in a strict ancestor of it
         open(os.path.join(root if above else t, ".flowmarkignore"), "w").write("# rules\nign.md\n")
+        open(os.path.join(t, "other", ".flowmarkignore"), "w").write("sub/\n")        # the second project's own ignore file
     return t
 
 
